@@ -32,7 +32,8 @@ def run(ctx, report):
     folder = ctx.memo("folder", lambda: Folder(ctx.index))
     report.section("parity", parity, ctx, report, folder)
     report.section("tables", tables, ctx, report, folder)
-    report.section("wrap", wrap, ctx, report)
+    report.structural_section("wrap (shape)", "R-E2E 'rows' / 'reread' on the folded SCC documents: every row <= 32 columns, broken at spaces only "
+                              "(lines of exactly 32 and 33 characters, long words, a word longer than a row)", wrap, ctx, report)
     report.section("timecode", timecode, ctx, report, folder)
     report.structural_section("pre-roll (symbolic form)", "R-E2E 'visible' (every caption after the first becomes visible within three "
                               "frames of its start, on generated caption sets incl. cues of five and more rows)", preroll, ctx, report, folder)
